@@ -19,7 +19,7 @@ var rEffect = &Rule{
 	Doc: "effect analysis over the VTA call graph: in every hand-written module function reachable from the observer entry points (formatting, redacted formatting, encoding, Is/IsAny/As/If/Has*/Get*/Flatten*, safe-detail extraction, report building, and every method of every module error type) " +
 		"(1) no Store/MapUpdate goes through a pointer that is not freshly allocated in the same function (or fresh at every call site) into a type reachable from an error value's fields; (2) no package-level variable is written (store, map update) unless under a dominating Lock() of a package-level mutex; " +
 		"(3) no range over a map decides a result (tabled: GetTelemetryKeys, documented as a set). Scratch types (state, formatEntry, buffers, the sentry event, wire messages under construction) are not shared",
-	Run: runEffect,
+	Run: func(c *core.Ctx) { runEffect(c, nil) },
 }
 
 var effectTabled = map[string]string{
@@ -73,10 +73,19 @@ func scratchType(t types.Type) bool {
 	return false
 }
 
-func runEffect(c *core.Ctx) {
+func runEffect(c *core.Ctx, keepEntry func(*ssa.Function) bool) {
 	p := c.P
 	cg := p.CallGraph()
 	entries := observerEntries(c)
+	if keepEntry != nil {
+		var kept []*ssa.Function
+		for _, e := range entries {
+			if keepEntry(e) {
+				kept = append(kept, e)
+			}
+		}
+		entries = kept
+	}
 	// reachable hand-written module functions
 	reach := map[*ssa.Function]*ssa.Function{} // fn -> entry it was first reached from
 	var queue []*ssa.Function
@@ -378,6 +387,21 @@ func runEffect(c *core.Ctx) {
 				if isShared(x.Map.Type()) {
 					c.Fail(construct, x.Pos(), "a map reachable from an error object is updated on a path reachable from a read-only operation", via)
 				}
+			case *ssa.Call:
+				// package-level atomic state
+				f := sx.Callee(x)
+				if f == nil || load.FnPkg(f) == nil || load.FnPkg(f).Path() != "sync/atomic" || len(x.Call.Args) == 0 {
+					return
+				}
+				nm := f.Name()
+				if !(strings.HasPrefix(nm, "Add") || strings.HasPrefix(nm, "Store") || strings.HasPrefix(nm, "Swap") || strings.HasPrefix(nm, "CompareAndSwap") || nm == "Or" || nm == "And") {
+					return
+				}
+				if g, ok := rootOf(x.Call.Args[0]).(*ssa.Global); ok {
+					nStores++
+					c.Fail(fmt.Sprintf("%s: atomic update of package variable %s", load.FnName(fn), g.Name()), x.Pos(),
+						"process-wide state is updated (atomically) on a path reachable from a read-only operation: no data race, but the result of one call can depend on what other goroutines are doing", via)
+				}
 			case *ssa.Range:
 				if _, isMap := types.Unalias(x.X.Type()).Underlying().(*types.Map); !isMap {
 					return
@@ -415,14 +439,21 @@ func runEffect(c *core.Ctx) {
 		}
 	}
 	for k := range effectTabled {
+		if keepEntry != nil {
+			break
+		}
 		if !seenTab[k] {
 			c.Note("tabled R-EFFECT exception %q matches no construct any more (harmless; table can be pruned)", k)
 		}
 	}
 	c.Ob(fmt.Sprintf("%d observer entry points, %d reachable hand-written functions, %d store/map-update instructions inspected", len(entries), len(fns), nStores), token.NoPos, true, "no write to shared or package-level state")
-	c.Min("observer entry points", len(entries), 150)
-	c.Min("reachable functions", len(fns), 200)
-	c.Min("stores inspected", nStores, 200)
+	if keepEntry == nil {
+		c.Min("observer entry points", len(entries), 150)
+		c.Min("reachable functions", len(fns), 200)
+		c.Min("stores inspected", nStores, 200)
+	} else {
+		c.Min("observer entry points in scope", len(entries), 1)
+	}
 }
 
 func describeAddr(a ssa.Value) string {
